@@ -38,7 +38,12 @@ CHECKS = {
              "statement and interp over a vector of s, and exports the result length and the Pick map (which element of "
              "each operand feeds result i) or ValueError; LenRule is checked by TLC. Every case is executed on operands "
              "built from pairwise distinguishable members and each result element compared with the library's own "
-             "single-valued operation on the picked elements. Exhaustive within the bounds the property states.",
+             "single-valued operation on the picked elements. Exhaustive within the bounds the property states. "
+             "In addition SeqMachine.tla drives ONE live multi-valued object (SE3, SO3, UnitQuaternion, SE2, SO2, Twist3, "
+             "Twist2) through TLC-generated behaviours interleaving broadcasting products / quotients, inv, **, prod and "
+             "the list operations over the EXACT rigid-motion domain; every value of the object is compared with the "
+             "specification's exact value after every step (its invariants and action properties are model-checked "
+             "exhaustively on a small instance).",
         note="Oracle for element values is the single-valued operation itself (statement's wording); its correctness is "
              "C02/C04. Result containers (object, list, array stacked on first or last axis) are all accepted. Methods "
              "not named by the statement (Twist accessors, angvec, ...) are explored and counted, not judged.",
@@ -93,7 +98,9 @@ CHECKS = {
              "handedness preservation are TLC-checked laws of the model. TLC enumerates every call form (one pose x N "
              "points N=1..7 in list/tuple/1-D/row/column/d x N form; 2..5 poses x one point; 3D and 2D) and each is "
              "executed through the matrix classes, UnitQuaternion, UnitDualQuaternion, homtrans and qvmul at data "
-             "scales 1e-6, 1, 1e6; values and result shapes are compared with the exact columns (1e-9 relative).",
+             "scales 1e-6, 1, 1e6; values and result shapes are compared with the exact columns (1e-9 relative). "
+             "Further call forms: X.inv() of a multi-valued X applied column by column to X*p; rotations by tiny angles "
+             "(1e-9..1e-5) and within 1e-9..1e-5 of a half turn through every route against Rodrigues' formula.",
         note="Poses are a fixed list of lattice and rational motions; real-valued poses are covered by C02/C04 laws.",
         technique="TLA+ exact point-action model enumerated by TLC; per-route replay",
         ref="6 (C06)"),
@@ -134,7 +141,11 @@ CHECKS = {
              "model's prediction of class and length. In addition every entry of the Api table in every container form "
              "(argument bytes before/after, call twice for determinism), every matrix-argument entry, every cell of the "
              "operator table (both operands; right operand for augmented forms) and every public method/property found "
-             "by reflection (single- and multi-valued receivers) are executed.",
+             "by reflection (single- and multi-valued receivers, display methods included) are executed. Sharing.tla "
+             "(value semantics: several objects derived from one another by indexing, slicing, construction, append / "
+             "extend / insert and then mutated through the list interface; action property Frame) is explored "
+             "exhaustively to depth 3 (56k behaviours; depth 4 sampled in the thorough tier) and every behaviour is "
+             "replayed with EVERY live object compared after EVERY step.",
         note="A heap behaviour is abandoned at the first step whose outcome differs from the model in class/length/"
              "exception (those differences belong to C08/C09/C10 and are counted in evidence). Methods needing arguments "
              "are reached through the Api table, not by reflection; graphics/animation entry points are not called.",
@@ -149,7 +160,10 @@ CHECKS = {
              "lattice. The implementation (base functions, Quaternion / UnitQuaternion / DualQuaternion operators and "
              "methods) is executed on the same grids, random integers and sigma-scaled copies; results are logged as "
              "integer events and judged by TLC (QuatTrace.tla), ~13k events per run. exp/log: lattice values and the two "
-             "round-trip laws on sampled magnitudes 1e-6..1e6 and |v| up to pi-1e-6; dual norm (1,0) for every unit "
+             "round-trip laws on sampled magnitudes 1e-6..1e6 and |v| up to pi-1e-6, and on the structured cases of "
+             "QuatExpLog.tla (every integer quaternion of the -2..2 box incl. pure ones at several scales; vector parts of "
+             "norm k pi/4 with the exact eighth-turn table); products of unit dual quaternions of integer rigid motions "
+             "judged by TLC up to the sign of the whole 8-vector; dual norm (1,0) for every unit "
              "dual quaternion built from lattice motions at scales 1e-3..1e6.",
         note="The 'proof' reading needs the assumption that each implementation function is a polynomial map of the "
              "stated degree (checked on extra points, not proved). The symbolic execution of library code mentioned in "
